@@ -334,22 +334,35 @@ Definition fs_get (fs : file_store) (i : N) : option (str * fkind) :=
   if i <? fs_schema_len fs then option_map (fun p => (p, KSchema)) (nth_error (fs_schema fs) (N.to_nat i))
   else option_map (fun p => (p, KOperation)) (nth_error (fs_ops fs) (N.to_nat (i - fs_schema_len fs))).
 
-Fixpoint file_indices_from (i : N) (schema_len : N) (op : option N) (l : list (str * fkind)) : list N :=
+(** which operation document is being printed: its file-store index and [contributing_files], the
+    [position().file] of every definition of the (import-resolved) document *)
+Definition opdoc := (N * list N)%type.
+
+(** [idx == *file_index || contributing_files.contains(&idx)] *)
+Definition contributes (op : option opdoc) (i : N) : bool :=
+  match op with
+  | Some (fi, contrib) => (i =? fi) || existsb (N.eqb i) contrib
+  | None => false
+  end.
+
+(** the closure mapped over [file_store.iter()]; [next] is [next_source_index] *)
+Fixpoint file_indices_from (i : N) (next : N) (op : option opdoc) (l : list (str * fkind)) : list N :=
   match l with
   | [] => []
   | (_, k) :: r =>
-      (match k with
-       | KSchema => i
-       | KOperation => match op with
-                       | Some fi => if i =? fi then schema_len else USIZE_MAX
-                       | None => USIZE_MAX
-                       end
-       end) :: file_indices_from (N.succ i) schema_len op r
+      match k with
+      | KSchema => i :: file_indices_from (N.succ i) next op r
+      | KOperation =>
+          if contributes op i then next :: file_indices_from (N.succ i) (next + 1) op r
+          else USIZE_MAX :: file_indices_from (N.succ i) next op r
+      end
   end.
 
-(** [FileMap::file_indices]: [op = None] for the schema and resolver outputs, [Some file_index] for the
-    declaration file of the operation document with that file-store index *)
-Definition file_indices (fs : file_store) (op : option N) : list N :=
+(** [FileMap::file_indices]: [op = None] for the schema and resolver outputs (every operation file maps to
+    usize::MAX), [Some (file_index, contributing_files)] for the declaration file of an operation
+    document: the operation files that contribute a definition get consecutive indices from
+    [schema_len] on, in store order *)
+Definition file_indices (fs : file_store) (op : option opdoc) : list N :=
   file_indices_from 0 (fs_schema_len fs) op (fs_iter fs).
 
 (** [source_files] in [write_file_and_sourcemap] *)
@@ -360,5 +373,5 @@ Fixpoint source_files (idx : list N) (files : list (str * fkind)) : list str :=
   end.
 
 (** the ["sources"] array of the map written next to [output_file] *)
-Definition cli_sources (fs : file_store) (op : option N) (output_file : str) : option (list str) :=
+Definition cli_sources (fs : file_store) (op : option opdoc) (output_file : str) : option (list str) :=
   sm_sources output_file (source_files (file_indices fs op) (fs_iter fs)).
